@@ -23,6 +23,7 @@ type zzProg struct {
 	first   bool // set status before (true) or after (false) the body call
 	close   bool
 	flushes int // mode 6: flush after each write (1) or not (0)
+	cut     int // mode 6: the body is written as body[:cut], body[cut:]
 }
 
 func zzApply(ctx *app.RequestContext, p *zzProg) {
@@ -55,16 +56,13 @@ func zzApply(ctx *app.RequestContext, p *zzProg) {
 	case 6:
 		w := resp.NewChunkedBodyWriter(&ctx.Response, ctx.GetWriter())
 		ctx.Response.HijackWriter(w)
-		h := len(b) / 2
-		if h > 0 {
-			w.Write(b[:h]) //nolint:errcheck
-			if p.flushes == 1 {
-				w.Flush() //nolint:errcheck
-			}
+		// two writes at every split point of the body, empty writes included
+		h := p.cut
+		w.Write(b[:h]) //nolint:errcheck
+		if p.flushes == 1 {
+			w.Flush() //nolint:errcheck
 		}
-		if len(b)-h > 0 {
-			w.Write(b[h:]) //nolint:errcheck
-		}
+		w.Write(b[h:]) //nolint:errcheck
 	case 7:
 		ctx.AbortWithMsg(string(b), p.status)
 		ctx.Response.Header.SetNoDefaultDate(true) // Reset re-enabled the (time-dependent) Date header
@@ -91,6 +89,7 @@ func zzChooseProg(i int) *zzProg {
 	p.close = zz.Choose("close", 2) == 1
 	if p.mode == 6 {
 		p.flushes = zz.Choose("flush", 2)
+		p.cut = zz.Range("cut", 0, l)
 	}
 	if p.mode >= 7 {
 		p.first = false // these helpers reset the response and set the status themselves
